@@ -581,6 +581,7 @@ func (e *Engine) sliceOp(fr *frame, x *ssa.Slice) Value {
 				}
 			}
 			o := e.newBytesObj(r, e.c64(uint64(len(arr.elems))))
+			o.fromCell = b.cell // provenance: the array this slice was taken from (sync.Pool tracking)
 			return BytesV{obj: o, off: e.c64(uint64(l)), n: e.c64(uint64(h - l)), cap: e.c64(uint64(len(arr.elems) - l))}
 		}
 		o := e.newArrObj(append([]Value{}, arr.elems...))
